@@ -292,6 +292,7 @@ class Explorer:
 
     # ------------------------------------------------------------------ calls
     def do_call(self, run, node, fr):
+        run.call_frame = fr
         src = ast.unparse(node.func)
         if src in NOOP_CALLS or src.split(".")[-1] in ("trace_component_msg", "trace_node_msg"):
             return NONE
@@ -754,6 +755,8 @@ class Explorer:
             if id(finfo.node) in seen:
                 return
             seen.add(id(finfo.node))
+            if finfo.fq in self.reg.stubs and finfo.fq not in self.reg.contracts:
+                return      # replaced by an assumed stub: its effects are whatever the stub does
             c2 = self.reg.contracts.get(finfo.fq)
             if c2 is not None and finfo.fq not in self.c.inline:
                 for m in c2.modifies:
